@@ -40,13 +40,13 @@ type vAsset struct {
 }
 
 type vView struct {
-	parts                          []uint32
-	ents                           []vEnt
-	comps                          []vComp
-	acts                           []vAct
-	assets                         []vAsset
-	gotSession, gotVikja, gotOdal  int // how many of each state message were handed over
-	wellFormed                     bool
+	parts                         []uint32
+	ents                          []vEnt
+	comps                         []vComp
+	acts                          []vAct
+	assets                        []vAsset
+	gotSession, gotVikja, gotOdal int // how many of each state message were handed over
+	wellFormed                    bool
 }
 
 func poseArr(p *hagallpb.Pose) (bool, [7]float32) {
